@@ -41,6 +41,7 @@ pub fn run(ctx: &mut Ctx, suite: &str) {
         "c18" => c18::run(ctx),
         "c12t" => c12::run_tokens(ctx),
         "c12" => c12::run_limit(ctx),
+        "c12e" => c12::run_emfile(ctx),
         "c13" => c12::run_shutdown(ctx),
         "c19" => c19::run(ctx),
         "c20" => c20::run(ctx),
@@ -72,6 +73,7 @@ pub fn replay(ctx: &mut Ctx, tag: &str, args: &[&str]) {
         "c18" => c18::case(ctx, args[0]),
         "c12t" => c12::case_tokens(ctx, args[0], args[1]),
         "c12" => c12::case_limit(ctx, args[0], args[1], args[2]),
+        "c12e" => c12::case_emfile(ctx, args[0], args[1]),
         "c13" => c12::case_shutdown(ctx, args[0], args[1], args[2]),
         "c19s" => c19::case_set(ctx, args[0], args[1]),
         "c19w" => c19::case_writer(ctx, args[0], args[1], args[2], args[3], args[4]),
